@@ -9,7 +9,7 @@
    iterates a map. Errors are compared through an abstraction to the model's
    verdict: which rule fired (by the format string of the error).            *)
 From Coq Require Import List Bool String Ascii NArith ZArith Lia.
-From NV Require Import Base Regex Generated GoLib C02_Levels C04_DN C09_Model C09_Gen.
+From NV Require Import Base Regex Generated GoLib C02_Levels C04_DN C09_Model C09_Spec C09_Proofs C09_Audit C09_Gen.
 Import ListNotations.
 Local Open Scope string_scope.
 Local Open Scope list_scope.
@@ -547,3 +547,342 @@ Proof.
   rewrite !andb_true_iff. intros [H1 H2]. split; [exact H1|apply IH; exact H2].
 Qed.
 Print Assumptions C09_gen_override_entries_unique.
+
+(* ====================================================================== *)
+(* The two Validate methods                                                *)
+(* ====================================================================== *)
+
+(* ---------- validateRegistryScopeFormat ---------- *)
+
+Theorem C09_gen_validateRegistryScopeFormat_equiv :
+  forall sc, errc_of (gen_trustpolicy_validateRegistryScopeFormat sc) = validate_scope_format sc.
+Proof.
+  intros sc. unfold gen_trustpolicy_validateRegistryScopeFormat, validate_scope_format.
+  cbv zeta. rewrite str_len_gt1. change "*" with (String "*"%char EmptyString) at 1.
+  rewrite str_contains_byte.
+  destruct (Nat.ltb 1 (String.length sc) && contains_byte "*" sc); [vm_compute; reflexivity|].
+  change "/" with (String "/"%char EmptyString) at 1. rewrite str_cut_byte.
+  destruct (cut_byte "/" sc) as [[d r]|]; [|vm_compute; reflexivity].
+  cbn [negb]. unfold re_match.
+  change (matches _ d) with (matches gen_re_domain d).
+  change (matches _ r) with (matches gen_re_repository r).
+  destruct (String.eqb d "" || (String.eqb r "" || (negb (matches gen_re_domain d) || negb (matches gen_re_repository r)))) eqn:E.
+  - replace (String.eqb d "" || String.eqb r "" || negb (matches gen_re_domain d) || negb (matches gen_re_repository r)) with true
+      by (rewrite <- E; destruct (String.eqb d ""), (String.eqb r ""), (matches gen_re_domain d), (matches gen_re_repository r); reflexivity).
+    vm_compute. reflexivity.
+  - replace (String.eqb d "" || String.eqb r "" || negb (matches gen_re_domain d) || negb (matches gen_re_repository r)) with false
+      by (rewrite <- E; destruct (String.eqb d ""), (String.eqb r ""), (matches gen_re_domain d), (matches gen_re_repository r); reflexivity).
+    reflexivity.
+Qed.
+Print Assumptions C09_gen_validateRegistryScopeFormat_equiv.
+
+(* ---------- validateRegistryScopes ---------- *)
+
+Definition cnt (k : string) (l : list string) : nat := List.length (filter (String.eqb k) l).
+
+(* the counting map of the Go code holds the number of occurrences seen so far *)
+Definition counts (m : list (string * Z)) (seen : list string) : Prop :=
+  forall k, map_get_or String.eqb 0%Z k m = Z.of_nat (cnt k seen).
+
+Lemma cnt_app k a b : cnt k (a ++ b) = (cnt k a + cnt k b)%nat.
+Proof. unfold cnt. rewrite filter_app, app_length. reflexivity. Qed.
+
+Lemma cnt_mem k l : mem_str k l = Nat.ltb 0 (cnt k l).
+Proof.
+  unfold mem_str, cnt. induction l as [|x l IH]; [reflexivity|].
+  cbn [existsb filter]. destruct (String.eqb k x); [reflexivity|exact IH].
+Qed.
+
+Lemma has_dup_cnt l : has_dup l = true <-> exists k, (2 <= cnt k l)%nat.
+Proof.
+  induction l as [|x r IH]; cbn [has_dup].
+  - split; [discriminate|]. intros [k H]. cbn in H. lia.
+  - rewrite orb_true_iff, IH. split.
+    + intros [H|[k H]].
+      * exists x. rewrite cnt_mem in H. apply Nat.ltb_lt in H. unfold cnt in *. cbn [filter].
+        rewrite String.eqb_refl. cbn [List.length]. lia.
+      * exists k. unfold cnt in *. cbn [filter]. destruct (String.eqb k x); cbn [List.length]; lia.
+    + intros [k H]. unfold cnt in H. cbn [filter] in H. destruct (String.eqb k x) eqn:E.
+      * apply String.eqb_eq in E. subst x. left. rewrite cnt_mem. apply Nat.ltb_lt. unfold cnt. cbn [List.length] in H. lia.
+      * right. exists k. exact H.
+Qed.
+
+Lemma counts_add m seen sc :
+  counts m seen ->
+  counts (map_set String.eqb sc (map_get_or String.eqb 0%Z sc m + 1)%Z m) (seen ++ [sc]).
+Proof.
+  intros H k. unfold map_get_or. rewrite (map_get_set String.eqb string_eqb_spec').
+  rewrite cnt_app. unfold cnt at 2. cbn [filter].
+  destruct (String.eqb k sc) eqn:E.
+  - apply String.eqb_eq in E. subst k. pose proof (H sc) as Hs. unfold map_get_or in Hs. rewrite Hs.
+    cbn [List.length]. lia.
+  - pose proof (H k) as Hk. unfold map_get_or in Hk. rewrite Hk. cbn [List.length]. lia.
+Qed.
+
+Definition dup_err : err :=
+  Err "fmt" "registry scope %q is present in multiple oci trust policy statements, one registry scope value can only be associated with one statement" [].
+
+Lemma dup_loop m : forall l,
+  gen_trustpolicy_validateRegistryScopes_loop2 (fun _ => None) m l
+  = if existsb (fun kv => (map_get_or String.eqb 0%Z (fst kv) m >? 1)%Z) l then Some dup_err else None.
+Proof.
+  induction l as [|kv l IH]; [reflexivity|].
+  cbn [gen_trustpolicy_validateRegistryScopes_loop2 existsb].
+  destruct (map_get_or String.eqb 0%Z (fst kv) m >? 1)%Z; [reflexivity|exact IH].
+Qed.
+
+Lemma map_get_in {V} (m : list (string * V)) k v : map_get String.eqb k m = Some v -> In (k, v) m.
+Proof.
+  induction m as [|[k' v'] m IH]; cbn; [discriminate|].
+  destruct (String.eqb k k') eqn:E.
+  - intros H. inversion H; subst. apply String.eqb_eq in E. subst. left. reflexivity.
+  - intros H. right. apply IH. exact H.
+Qed.
+
+Lemma dup_check m seen :
+  counts m seen ->
+  existsb (fun kv => (map_get_or String.eqb 0%Z (fst kv) m >? 1)%Z) (map_entries String.eqb m) = has_dup seen.
+Proof.
+  intros H. apply eq_true_iff_eq. rewrite existsb_exists, has_dup_cnt. split.
+  - intros [[k v] [_ Hk]]. cbn [fst] in Hk. exists k. rewrite H in Hk. apply Z.gtb_lt in Hk. lia.
+  - intros [k Hk]. pose proof (H k) as Hm. unfold map_get_or in Hm.
+    destruct (map_get String.eqb k m) as [v|] eqn:G; [|lia].
+    exists (k, v). split.
+    + apply map_get_in. rewrite (map_get_entries String.eqb string_eqb_spec'). exact G.
+    + cbn [fst]. unfold map_get_or. rewrite G. apply Z.gtb_lt. lia.
+Qed.
+
+(* the scopes of one statement *)
+Lemma scopes_inner_loop K scs : forall m seen,
+  counts m seen ->
+  (exists e, gen_trustpolicy_validateRegistryScopes_loop3 K scs m = Some e
+             /\ errc_of (Some e) = scopes_inner scs /\ scopes_inner scs <> EOk)
+  \/ (scopes_inner scs = EOk
+      /\ exists m', gen_trustpolicy_validateRegistryScopes_loop3 K scs m = K m' /\ counts m' (seen ++ scs)).
+Proof.
+  induction scs as [|sc rest IH]; intros m seen Hc.
+  - right. split; [reflexivity|]. exists m. split; [reflexivity|]. rewrite app_nil_r. exact Hc.
+  - cbn [gen_trustpolicy_validateRegistryScopes_loop3 scopes_inner]. unfold wildcard.
+    assert (Hnext : forall e0, e0 = EOk ->
+      (exists e, gen_trustpolicy_validateRegistryScopes_loop3 K rest
+                   (map_set String.eqb sc (map_get_or String.eqb 0%Z sc m + 1)%Z m) = Some e
+                 /\ errc_of (Some e) = (e0 ;; scopes_inner rest) /\ (e0 ;; scopes_inner rest) <> EOk)
+      \/ ((e0 ;; scopes_inner rest) = EOk
+          /\ exists m', gen_trustpolicy_validateRegistryScopes_loop3 K rest
+                          (map_set String.eqb sc (map_get_or String.eqb 0%Z sc m + 1)%Z m) = K m'
+                        /\ counts m' (seen ++ sc :: rest))).
+    { intros e0 ->. cbn [andthen].
+      destruct (IH _ (seen ++ [sc]) (counts_add m seen sc Hc)) as [H|[H1 [m' [H2 H3]]]]; [left; exact H|].
+      right. split; [exact H1|]. exists m'. split; [exact H2|]. rewrite <- app_assoc in H3. exact H3. }
+    destruct (String.eqb sc "*"); cbn [negb]; [apply Hnext; reflexivity|].
+    pose proof (C09_gen_validateRegistryScopeFormat_equiv sc) as Hf.
+    destruct (gen_trustpolicy_validateRegistryScopeFormat sc) as [e|]; cbn [is_none negb].
+    + left. exists e. rewrite <- Hf. pose proof (errc_of_some_not_ok e) as N.
+      split; [reflexivity|]. unfold andthen. destruct (errc_of (Some e)); try (split; [reflexivity|discriminate]).
+      exfalso. apply N. reflexivity.
+    + apply Hnext. rewrite <- Hf. reflexivity.
+Qed.
+
+Lemma scopes_outer_loop : forall ss m seen,
+  counts m seen ->
+  errc_of (gen_trustpolicy_validateRegistryScopes_loop1 ss m)
+  = (scopes_loop (map (fun s => mk_stmt "" (mk_sv "" [] "") [] [] (OCITrustPolicy_RegistryScopes s) false) ss)
+     ;; (if has_dup (seen ++ flat_map OCITrustPolicy_RegistryScopes ss) then EScopeDup else EOk)).
+Proof.
+  induction ss as [|s rest IH]; intros m seen Hc.
+  - cbn [gen_trustpolicy_validateRegistryScopes_loop1 map scopes_loop flat_map andthen].
+    rewrite dup_loop, (dup_check m seen Hc), app_nil_r.
+    destruct (has_dup seen); [vm_compute; reflexivity|reflexivity].
+  - cbn [gen_trustpolicy_validateRegistryScopes_loop1 map scopes_loop flat_map C09_Model.s_scopes].
+    rewrite is_empty_len, list_len_gt1, C09_gen_Contains_equiv. unfold wildcard.
+    destruct (is_empty (OCITrustPolicy_RegistryScopes s)); [vm_compute; reflexivity|].
+    destruct (Nat.ltb 1 (List.length (OCITrustPolicy_RegistryScopes s)) && mem_str "*" (OCITrustPolicy_RegistryScopes s));
+      [vm_compute; reflexivity|].
+    destruct (scopes_inner_loop (fun m0 => gen_trustpolicy_validateRegistryScopes_loop1 rest m0)
+                (OCITrustPolicy_RegistryScopes s) m seen Hc) as [[e [H1 [H2 H3]]]|[H1 [m' [H2 H3]]]].
+    + rewrite H1, H2. unfold andthen.
+      destruct (scopes_inner (OCITrustPolicy_RegistryScopes s)); try reflexivity. exfalso. apply H3. reflexivity.
+    + rewrite H2, H1. cbn [andthen]. rewrite (IH m' _ H3), <- app_assoc. reflexivity.
+Qed.
+
+(* the model's statement of a generated one *)
+Definition stmt_of_oci (s : trustpolicy_OCITrustPolicy) : stmt :=
+  mk_stmt (OCITrustPolicy_Name s) (sigver_of (OCITrustPolicy_SignatureVerification s))
+          (OCITrustPolicy_TrustStores s) (OCITrustPolicy_TrustedIdentities s) (OCITrustPolicy_RegistryScopes s) false.
+
+Definition stmt_of_blob (s : trustpolicy_BlobTrustPolicy) : stmt :=
+  mk_stmt (BlobTrustPolicy_Name s) (sigver_of (BlobTrustPolicy_SignatureVerification s))
+          (BlobTrustPolicy_TrustStores s) (BlobTrustPolicy_TrustedIdentities s) [] (BlobTrustPolicy_GlobalPolicy s).
+
+Definition doc_of_oci (d : trustpolicy_OCIDocument) : doc :=
+  mk_doc (OCIDocument_Version d) (map stmt_of_oci (OCIDocument_TrustPolicies d)).
+
+Definition doc_of_blob (d : trustpolicy_BlobDocument) : doc :=
+  mk_doc (BlobDocument_Version d) (map stmt_of_blob (BlobDocument_TrustPolicies d)).
+
+Lemma scopes_loop_ext : forall (ss : list trustpolicy_OCITrustPolicy),
+  scopes_loop (map (fun s => mk_stmt "" (mk_sv "" [] "") [] [] (OCITrustPolicy_RegistryScopes s) false) ss)
+  = scopes_loop (map stmt_of_oci ss).
+Proof. induction ss as [|s r IH]; [reflexivity|]. cbn. rewrite IH. reflexivity. Qed.
+
+Theorem C09_gen_validateRegistryScopes_equiv :
+  forall d, errc_of (gen_trustpolicy_validateRegistryScopes d) = validate_registry_scopes (d_stmts (doc_of_oci d)).
+Proof.
+  intros d. unfold gen_trustpolicy_validateRegistryScopes, validate_registry_scopes, doc_of_oci.
+  cbn [d_stmts]. rewrite (scopes_outer_loop _ [] []); [|intros k; reflexivity].
+  rewrite scopes_loop_ext. cbn [app].
+  assert (F : forall ss, flat_map C09_Model.s_scopes (map stmt_of_oci ss) = flat_map OCITrustPolicy_RegistryScopes ss).
+  { induction ss as [|s r IH]; [reflexivity|]. cbn. rewrite IH. reflexivity. }
+  rewrite F. reflexivity.
+Qed.
+Print Assumptions C09_gen_validateRegistryScopes_equiv.
+
+(* ---------- OCIDocument.Validate ---------- *)
+
+Lemma set_contains_add (pset : list (string * unit)) s x :
+  gen_container_Set_Contains_string (gen_container_Set_Add_string pset s) x
+  = String.eqb x s || gen_container_Set_Contains_string pset x.
+Proof.
+  unfold gen_container_Set_Contains_string, gen_container_Set_Add_string, map_get_ok.
+  rewrite (map_get_set String.eqb string_eqb_spec').
+  destruct (String.eqb x s); reflexivity.
+Qed.
+
+Lemma wrapper_class x :
+  errc_of (Some (Err "fmt" "oci trust policy: %w" [x])) = errc_of (Some x)
+  /\ errc_of (Some (Err "fmt" "blob trust policy: %w" [x])) = errc_of (Some x).
+Proof. split; reflexivity. Qed.
+
+Lemma oci_loop_spec parse (Hp : parse_agrees parse) dv : forall ss pset names,
+  (forall x, gen_container_Set_Contains_string pset x = mem_str x names) ->
+  exists r, gen_trustpolicy_OCIDocument_Validate_loop1 parse dv ss pset = Some r
+            /\ errc_of r = (oci_loop (map stmt_of_oci ss) names ;; validate_registry_scopes (d_stmts (doc_of_oci dv))).
+Proof.
+  induction ss as [|s rest IH]; intros pset names Hn.
+  - cbn [gen_trustpolicy_OCIDocument_Validate_loop1 map oci_loop andthen].
+    pose proof (C09_gen_validateRegistryScopes_equiv dv) as Hs.
+    destruct (gen_trustpolicy_validateRegistryScopes dv) as [e|]; cbn [is_none negb];
+      eexists; (split; [reflexivity|]); exact Hs.
+  - cbn [gen_trustpolicy_OCIDocument_Validate_loop1 map oci_loop]. rewrite Hn.
+    cbn [stmt_of_oci C09_Model.s_name]. destruct (mem_str (OCITrustPolicy_Name s) names); [eexists; split; [reflexivity|vm_compute; reflexivity]|].
+    unfold core_of. cbn [stmt_of_oci C09_Model.s_name C09_Model.s_sv C09_Model.s_stores C09_Model.s_ids].
+    destruct (C09_gen_validatePolicyCore_equiv parse Hp (OCITrustPolicy_Name s) (OCITrustPolicy_SignatureVerification s)
+                (OCITrustPolicy_TrustStores s) (OCITrustPolicy_TrustedIdentities s)) as [r [Hr1 Hr2]].
+    rewrite Hr1. rewrite <- Hr2. destruct r as [x|]; cbn [is_none negb olist].
+    + eexists; split; [reflexivity|]. rewrite (proj1 (wrapper_class x)).
+      pose proof (errc_of_some_not_ok x) as N. unfold andthen.
+      destruct (errc_of (Some x)); try reflexivity. exfalso. apply N. reflexivity.
+    + cbn [errc_of andthen]. apply IH. intros y. rewrite set_contains_add, Hn. reflexivity.
+Qed.
+
+Theorem C09_gen_OCIDocument_Validate_equiv :
+  forall parse, parse_agrees parse ->
+  forall p, exists r, gen_trustpolicy_OCIDocument_Validate parse p = Some r
+                      /\ errc_of r = validate_ptr OCI (option_map doc_of_oci (ptr_val p)).
+Proof.
+  intros parse Hp p. unfold gen_trustpolicy_OCIDocument_Validate.
+  destruct (ptr_val p) as [dv|]; cbn [option_map validate_ptr validate].
+  2:{ eexists; split; [reflexivity|vm_compute; reflexivity]. }
+  unfold validate_oci, doc_of_oci at 1 2 3. cbn [d_version d_stmts].
+  destruct (String.eqb (OCIDocument_Version dv) ""); [eexists; split; [reflexivity|vm_compute; reflexivity]|].
+  rewrite C09_gen_Contains_equiv. change trustpolicy_supportedOCIPolicyVersions with supported_versions.
+  destruct (mem_str (OCIDocument_Version dv) supported_versions); cbn [negb];
+    [|eexists; split; [reflexivity|vm_compute; reflexivity]].
+  rewrite is_empty_len.
+  assert (He : is_empty (map stmt_of_oci (OCIDocument_TrustPolicies dv)) = is_empty (OCIDocument_TrustPolicies dv))
+    by (destruct (OCIDocument_TrustPolicies dv); reflexivity).
+  rewrite He. destruct (is_empty (OCIDocument_TrustPolicies dv)); [eexists; split; [reflexivity|vm_compute; reflexivity]|].
+  apply (oci_loop_spec parse Hp dv). intros x. reflexivity.
+Qed.
+Print Assumptions C09_gen_OCIDocument_Validate_equiv.
+
+(* ---------- BlobDocument.Validate ---------- *)
+
+Lemma blob_loop_spec parse (Hp : parse_agrees parse) : forall ss pset names fg,
+  (forall x, gen_container_Set_Contains_string pset x = mem_str x names) ->
+  exists r, gen_trustpolicy_BlobDocument_Validate_loop1 parse ss pset fg = Some r
+            /\ errc_of r = blob_loop (map stmt_of_blob ss) names fg.
+Proof.
+  induction ss as [|s rest IH]; intros pset names fg Hn.
+  - eexists; split; reflexivity.
+  - cbn [gen_trustpolicy_BlobDocument_Validate_loop1 map blob_loop]. rewrite Hn.
+    cbn [stmt_of_blob C09_Model.s_name C09_Model.s_global C09_Model.s_sv].
+    destruct (mem_str (BlobTrustPolicy_Name s) names); [eexists; split; [reflexivity|vm_compute; reflexivity]|].
+    unfold core_of. cbn [stmt_of_blob C09_Model.s_name C09_Model.s_sv C09_Model.s_stores C09_Model.s_ids].
+    destruct (C09_gen_validatePolicyCore_equiv parse Hp (BlobTrustPolicy_Name s) (BlobTrustPolicy_SignatureVerification s)
+                (BlobTrustPolicy_TrustStores s) (BlobTrustPolicy_TrustedIdentities s)) as [r [Hr1 Hr2]].
+    rewrite Hr1. rewrite <- Hr2. destruct r as [x|]; cbn [is_none negb olist].
+    + eexists; split; [reflexivity|]. rewrite (proj2 (wrapper_class x)).
+      pose proof (errc_of_some_not_ok x) as N. unfold andthen.
+      destruct (errc_of (Some x)); try reflexivity. exfalso. apply N. reflexivity.
+    + cbn [errc_of andthen]. unfold sigver_of. cbn [C09_Model.sv_level].
+      change (VerificationLevel_Name trustpolicy_LevelSkip_v) with "skip". unfold sv_lvl.
+      assert (Hn' : forall y, gen_container_Set_Contains_string (gen_container_Set_Add_string pset (BlobTrustPolicy_Name s)) y
+                              = mem_str y (BlobTrustPolicy_Name s :: names))
+        by (intros y; rewrite set_contains_add, Hn; reflexivity).
+      destruct (BlobTrustPolicy_GlobalPolicy s).
+      * destruct fg; [eexists; split; [reflexivity|vm_compute; reflexivity]|].
+        destruct (String.eqb (SignatureVerification_VerificationLevel (BlobTrustPolicy_SignatureVerification s)) "skip");
+          [eexists; split; [reflexivity|vm_compute; reflexivity]|].
+        apply IH. exact Hn'.
+      * apply IH. exact Hn'.
+Qed.
+
+Theorem C09_gen_BlobDocument_Validate_equiv :
+  forall parse, parse_agrees parse ->
+  forall p, exists r, gen_trustpolicy_BlobDocument_Validate parse p = Some r
+                      /\ errc_of r = validate_ptr Blob (option_map doc_of_blob (ptr_val p)).
+Proof.
+  intros parse Hp p. unfold gen_trustpolicy_BlobDocument_Validate.
+  destruct (ptr_val p) as [dv|]; cbn [option_map validate_ptr validate].
+  2:{ eexists; split; [reflexivity|vm_compute; reflexivity]. }
+  unfold validate_blob, doc_of_blob. cbn [d_version d_stmts].
+  destruct (String.eqb (BlobDocument_Version dv) ""); [eexists; split; [reflexivity|vm_compute; reflexivity]|].
+  rewrite C09_gen_Contains_equiv. change trustpolicy_supportedBlobPolicyVersions with supported_versions.
+  destruct (mem_str (BlobDocument_Version dv) supported_versions); cbn [negb];
+    [|eexists; split; [reflexivity|vm_compute; reflexivity]].
+  rewrite is_empty_len.
+  assert (He : is_empty (map stmt_of_blob (BlobDocument_TrustPolicies dv)) = is_empty (BlobDocument_TrustPolicies dv))
+    by (destruct (BlobDocument_TrustPolicies dv); reflexivity).
+  rewrite He. destruct (is_empty (BlobDocument_TrustPolicies dv)); [eexists; split; [reflexivity|vm_compute; reflexivity]|].
+  apply (blob_loop_spec parse Hp). intros x. reflexivity.
+Qed.
+Print Assumptions C09_gen_BlobDocument_Validate_equiv.
+
+(* ---------- the property, transported onto the code as translated ---------- *)
+
+(* Validate returns nil exactly for a non-nil document that obeys every rule
+   (C09_ptr_iff of props/C09_Property.v), now a statement about the generated
+   functions. The document is read through doc_of_oci / doc_of_blob (override
+   maps as the maps they denote). *)
+Corollary C09_gen_OCIDocument_Validate_accepts_iff :
+  forall parse, parse_agrees parse ->
+  forall p, gen_trustpolicy_OCIDocument_Validate parse p = Some None
+            <-> exists dv, ptr_val p = Some dv /\ WellFormed OCI (doc_of_oci dv).
+Proof.
+  intros parse Hp p. destruct (C09_gen_OCIDocument_Validate_equiv parse Hp p) as [r [H1 H2]].
+  rewrite H1. transitivity (validate_ptr OCI (option_map doc_of_oci (ptr_val p)) = EOk).
+  - rewrite <- H2. destruct r as [x|]; split; intros H; try reflexivity; try discriminate.
+    exfalso. exact (errc_of_some_not_ok x H).
+  - rewrite ptr_iff. split.
+    + intros [d [Hd Hw]]. destruct (ptr_val p) as [dv|]; [|discriminate]. exists dv. split; [reflexivity|].
+      cbn in Hd. inversion Hd. subst d. exact Hw.
+    + intros [dv [Hd Hw]]. rewrite Hd. exists (doc_of_oci dv). split; [reflexivity|exact Hw].
+Qed.
+Print Assumptions C09_gen_OCIDocument_Validate_accepts_iff.
+
+Corollary C09_gen_BlobDocument_Validate_accepts_iff :
+  forall parse, parse_agrees parse ->
+  forall p, gen_trustpolicy_BlobDocument_Validate parse p = Some None
+            <-> exists dv, ptr_val p = Some dv /\ WellFormed Blob (doc_of_blob dv).
+Proof.
+  intros parse Hp p. destruct (C09_gen_BlobDocument_Validate_equiv parse Hp p) as [r [H1 H2]].
+  rewrite H1. transitivity (validate_ptr Blob (option_map doc_of_blob (ptr_val p)) = EOk).
+  - rewrite <- H2. destruct r as [x|]; split; intros H; try reflexivity; try discriminate.
+    exfalso. exact (errc_of_some_not_ok x H).
+  - rewrite ptr_iff. split.
+    + intros [d [Hd Hw]]. destruct (ptr_val p) as [dv|]; [|discriminate]. exists dv. split; [reflexivity|].
+      cbn in Hd. inversion Hd. subst d. exact Hw.
+    + intros [dv [Hd Hw]]. rewrite Hd. exists (doc_of_blob dv). split; [reflexivity|exact Hw].
+Qed.
+Print Assumptions C09_gen_BlobDocument_Validate_accepts_iff.
